@@ -576,6 +576,23 @@ pub fn run(cfg: &Cfg, rep: &mut Report, mode: &Mode2) {
             }
         }
     }
+    for (idx, text) in crate::optyping::diverging_branch_programs().iter().enumerate() {
+        if !cfg.owns(idx as u64) {
+            continue;
+        }
+        let m = run_text(text, FUEL);
+        if matches!(m.outcome, Outcome::Rejected(..)) {
+            ctx.rep.count("optyping:diverging-branch:rejected");
+            continue;
+        }
+        for (key, what) in ctx.absorb("optyping-diverging", text, &m) {
+            if ctx.want(&key) {
+                ctx.emit(&key, &what, text);
+            } else {
+                ctx.rep.count(&format!("further:{}", truncate(&key, 80)));
+            }
+        }
+    }
     for (idx, text) in crate::optyping::const_union_programs().iter().enumerate() {
         if !cfg.owns(idx as u64) {
             continue;
